@@ -1050,18 +1050,21 @@ func (tt *TermTable) IdentityChain(t *Term) *Term {
 		seen[k.c] = true
 		cur = cur.a[2]
 	}
-	if cur.op != OpConst || x == nil || x.w > t.w {
+	if cur.op != OpConst || x == nil {
 		return t
 	}
 	seen[cur.c] = true
 	ub := tt.ub(x, 0)
-	if ub > 4096 {
+	if ub > 4096 || ub > mask(t.w) {
 		return t
 	}
 	for v := uint64(0); v <= ub; v++ {
 		if !seen[v] {
 			return t
 		}
+	}
+	if x.w > t.w {
+		return tt.Extract(x, t.w-1, 0)
 	}
 	return tt.Zext(x, t.w)
 }
